@@ -1316,8 +1316,12 @@ class RecordSerializer(TypeSerializer[T, np.void]):
         self._field_serializers = field_serializers
 
     def is_trivially_serializable(self) -> bool:
+        # The aligned dtype may contain padding, which is not part of the wire format
         return all(
             serializer.is_trivially_serializable()
+            for _, serializer in self._field_serializers
+        ) and self.overall_dtype().itemsize == sum(
+            serializer.overall_dtype().itemsize
             for _, serializer in self._field_serializers
         )
 
